@@ -19,6 +19,7 @@ import GqlVerif.Proofs.C01NestedAbsW
 import GqlVerif.Proofs.C01AliasFragW
 import GqlVerif.Proofs.C01NestedGenW
 import GqlVerif.Proofs.C01NestedGenXW
+import GqlVerif.Proofs.C01NestedBW
 open GqlVerif.C03
 #print axioms ok_iff_accepts
 #print axioms null_at_non_null_rejected
@@ -113,3 +114,7 @@ open GqlVerif.C03
 #print axioms GqlVerif.C01NG.nestedgen_precise_iff
 #print axioms GqlVerif.C01NG.ng_precise
 #print axioms GqlVerif.C01NX.nestedgen2_precise_iff
+-- NestedBOp (P49)
+#print axioms GqlVerif.C01NB.nestedb_precise_iff
+#print axioms GqlVerif.C01NB.nestedb_precise
+#print axioms GqlVerif.C01NB.nb_precise
